@@ -1,0 +1,167 @@
+//go:build verif
+
+package tree
+
+import (
+	"fmt"
+	"reflect"
+)
+
+// VerifNode describes one node of the tree for the /verif harness (read-only view).
+type VerifNode[K any] struct {
+	Depth  int
+	Leaf   bool
+	Parent int // index into VerifShape.Nodes, -1 for the root
+	Pos    int // index among the parent's children
+	Keys   []K
+}
+
+// VerifShape is the result of a read-only structural walk.
+type VerifShape[K any] struct {
+	Height   int // number of levels; 0 for the empty tree
+	NumNodes int
+	NumKeys  int
+	Size     int // the size field (what Len reports)
+	Gen      int
+	MinOcc   int // minimum n over non-root nodes (maxKVs+1 if there are none)
+	MaxOcc   int
+	RootN    int
+	Nodes    []VerifNode[K] // only filled when withNodes is set
+	Problems []string
+}
+
+const (
+	VerifMaxKVs = maxKVs
+	VerifMinKVs = minKVs
+)
+
+func verifIsZero(v any) bool {
+	if v == nil {
+		return true
+	}
+	return reflect.ValueOf(v).IsZero()
+}
+
+func verifClamp(n int) int {
+	if n < 0 {
+		return 0
+	}
+	if n > maxKVs {
+		return maxKVs
+	}
+	return n
+}
+
+func verifWalk[K, V any](t *btree[K, V], withNodes bool) VerifShape[K] {
+	s := VerifShape[K]{Size: t.size, Gen: t.gen, MinOcc: maxKVs + 1}
+	if t.root == nil {
+		s.Problems = append(s.Problems, "nil root")
+		return s
+	}
+	s.RootN = int(t.root.n)
+	if t.root.parent != nil {
+		s.Problems = append(s.Problems, "root has a parent")
+	}
+	leafDepth := -1
+	bad := func(format string, args ...any) {
+		if len(s.Problems) < 20 {
+			s.Problems = append(s.Problems, fmt.Sprintf(format, args...))
+		}
+	}
+	var prev *K
+	var walk func(x *node[K, V], depth int, parentIdx int, pos int)
+	walk = func(x *node[K, V], depth int, parentIdx int, pos int) {
+		s.NumNodes++
+		n := int(x.n)
+		me := -1
+		if withNodes {
+			me = len(s.Nodes)
+			s.Nodes = append(s.Nodes, VerifNode[K]{Depth: depth, Leaf: x.leaf(), Parent: parentIdx, Pos: pos,
+				Keys: append([]K(nil), x.keys[:verifClamp(n)]...)})
+		}
+		if n < 0 || n > maxKVs {
+			bad("node at depth %d has n=%d", depth, n)
+			return
+		}
+		if x != t.root {
+			if n < s.MinOcc {
+				s.MinOcc = n
+			}
+			if n < minKVs {
+				bad("non-root node at depth %d has only %d keys (< %d)", depth, n, minKVs)
+			}
+		} else if n == 0 && !x.leaf() {
+			bad("empty root with children")
+		}
+		if n > s.MaxOcc {
+			s.MaxOcc = n
+		}
+		for i := n; i < maxKVs; i++ {
+			if !verifIsZero(any(x.keys[i])) {
+				bad("vacated key slot %d of a node with n=%d at depth %d not cleared: %v", i, n, depth, x.keys[i])
+			}
+			if !verifIsZero(any(x.values[i])) {
+				bad("vacated value slot %d of a node with n=%d at depth %d not cleared", i, n, depth)
+			}
+		}
+		if x.leaf() {
+			for i := 0; i < branchFactor; i++ {
+				if x.children[i] != nil {
+					bad("leaf at depth %d has a child pointer in slot %d", depth, i)
+				}
+			}
+			if leafDepth == -1 {
+				leafDepth = depth
+			} else if leafDepth != depth {
+				bad("leaves at depths %d and %d", leafDepth, depth)
+			}
+			for i := 0; i < n; i++ {
+				s.NumKeys++
+				if prev != nil && t.compare(*prev, x.keys[i]) >= 0 {
+					bad("keys out of order: %v before %v", *prev, x.keys[i])
+				}
+				k := x.keys[i]
+				prev = &k
+			}
+			return
+		}
+		for i := n + 1; i < branchFactor; i++ {
+			if x.children[i] != nil {
+				bad("vacated child slot %d of an internal node with n=%d at depth %d not cleared", i, n, depth)
+			}
+		}
+		for i := 0; i <= n; i++ {
+			c := x.children[i]
+			if c == nil {
+				bad("internal node at depth %d with n=%d lacks child %d", depth, n, i)
+				return
+			}
+			if c.parent != x {
+				bad("child %d of node at depth %d has a wrong parent link", i, depth)
+			}
+			walk(c, depth+1, me, i)
+			if i < n {
+				s.NumKeys++
+				if prev != nil && t.compare(*prev, x.keys[i]) >= 0 {
+					bad("keys out of order: %v before separator %v", *prev, x.keys[i])
+				}
+				k := x.keys[i]
+				prev = &k
+			}
+		}
+	}
+	walk(t.root, 0, -1, 0)
+	if t.root.n > 0 {
+		s.Height = leafDepth + 1
+	}
+	if s.NumKeys != t.size {
+		bad("size field %d but %d keys stored", t.size, s.NumKeys)
+	}
+	return s
+}
+
+// VerifShape walks the map's tree (read-only).
+func (m Map[K, V]) VerifShape(withNodes bool) VerifShape[K] { return verifWalk(m.t, withNodes) }
+
+// VerifShape walks the set's tree (read-only).
+func (s Set[T]) VerifShape(withNodes bool) VerifShape[T] { return verifWalk(s.t, withNodes) }
